@@ -17,6 +17,7 @@ import AdaptaVerif.Lemmas.HyperTreeRzle
 import AdaptaVerif.Lemmas.HyperTreeWfb
 import AdaptaVerif.Lemmas.HyperTreeJunctions
 import AdaptaVerif.Lemmas.HyperTreeMove
+import AdaptaVerif.Lemmas.HyperTreeJBridge
 import AdaptaVerif.Lemmas.HyperTreeWitness
 import AdaptaVerif.Props.C12
 namespace AdaptaVerif.Props.C12Ops
@@ -289,6 +290,31 @@ theorem moveJunctionFully_preserves_tree {f : Nat} {s : Imp} {j : Nat} {s' : Imp
 example : (moveJunctionStep (mkImp exCommon [(1, 0)] [1] false) 1).map
     (fun r => (r.s.t.nodes.length, r.newSelf, r.s.t.leaves)) = some (6, some 1, [3, 4, 5]) := by
   decide +kernel
+
+/-- Junction bookkeeping of the junction move (one call + the caller's map rewrite), all branches.  With
+    fresh junction numbers (`JFresh`: every attached or deleted junction is below the counter the next
+    `new JunctionRef` gets; `NewJFresh`: likewise the reported-new ones): the bookkeeping is consistent
+    again, the junctions attached to nodes of the result are exactly the old ones plus the ones newly
+    reported in the new-junction list, nothing is reported deleted. -/
+theorem moveJunction_junction_bookkeeping {s : Imp} {j : Nat} {r : MoveResult} (ht : Tree s.t) (hi : JInv s)
+    (hF : AdaptaVerif.Lemmas.HyperTreeMove.JFresh s) (hN : AdaptaVerif.Lemmas.HyperTreeMove.NewJFresh s)
+    (h : moveJunctionStep s j = some r) :
+    JInv r.s ∧ AdaptaVerif.Lemmas.HyperTreeMove.JFresh r.s ∧ AdaptaVerif.Lemmas.HyperTreeMove.NewJFresh r.s ∧
+      (∀ j, Carried r.s.t j ↔ (Carried s.t j ∨ (j ∈ r.s.newJ ∧ j ∉ s.newJ))) ∧
+      r.s.delJ = s.delJ ∧ (∃ L, r.s.newJ = s.newJ ++ L) := by
+  have hk := AdaptaVerif.Lemmas.HyperTreeMove.moveJunctionStep_fullyKeeps ht
+    ((AdaptaVerif.Lemmas.HyperTreeJBridge.jinv_iff ht.1).mp hi) hF hN h
+  refine ⟨(AdaptaVerif.Lemmas.HyperTreeJBridge.jinv_iff hk.tree.1).mpr hk.jinv, hk.jfresh, hk.newJFresh,
+    ?_, hk.delJ, hk.newJ⟩
+  intro j
+  rw [AdaptaVerif.Lemmas.HyperTreeJBridge.carried_iff, AdaptaVerif.Lemmas.HyperTreeJBridge.carried_iff]
+  exact hk.junctions j
+
+-- non-vacuity of the freshness hypotheses
+example : AdaptaVerif.Lemmas.HyperTreeMove.JFresh (mkImp exCommon [(1, 0)] [1] true) :=
+  ⟨by decide, by decide⟩
+example : AdaptaVerif.Lemmas.HyperTreeMove.NewJFresh (mkImp exCommon [(1, 0)] [1] true) := by
+  intro j hj; cases hj
 
 /-! ### composition -/
 
